@@ -60,12 +60,12 @@ type TunnelFrame struct {
 // SetupDevice (65) onwards is an authenticated-encrypted COSE object of the
 // negotiated suite with a fresh IV.
 type TunnelMonitor struct {
-	Spec    CipherSpec
-	Frames  []TunnelFrame
-	Errors  []string
-	ivSeen  map[string]int
-	Plain   [][]byte // plaintexts registered by taps; must not appear on the wire
-	bodies  [][]byte
+	Spec   CipherSpec
+	Frames []TunnelFrame
+	Errors []string
+	ivSeen map[string]int
+	Plain  [][]byte // plaintexts registered by taps; must not appear on the wire
+	bodies [][]byte
 }
 
 func NewTunnelMonitor(spec CipherSpec) *TunnelMonitor {
